@@ -77,6 +77,22 @@ def hook_fork_programs(n, seed):
     return out
 
 
+def long_context_programs():
+    """A context of 1..8 fields of 150 bytes (up to 1.2 KB, well beyond the 500-byte initial capacity), then Output / Level /
+    Hook / a further With, then every logger emits: Output changes nothing but the destination, whatever the context's length."""
+    out = []
+    for k in range(1, 9):
+        for via in ("Output", "Level", "Hook", "With"):
+            steps = [{"op": "With", "i": 1, "j": 2, "a": 0}] + [{"op": "Field", "i": 2, "j": 2, "a": f} for f in range(1, k + 1)] + [{"op": "Logger", "i": 2, "j": 2, "a": 0}]
+            if via == "With":
+                steps += [{"op": "With", "i": 2, "j": 3, "a": 0}, {"op": "Field", "i": 3, "j": 3, "a": k + 1}, {"op": "Logger", "i": 3, "j": 3, "a": 0}]
+            else:
+                steps.append({"op": via, "i": 2, "j": 3, "a": 1})
+            steps += [{"op": "Emit", "i": 3, "j": 3, "a": 0}, {"op": "Emit", "i": 2, "j": 2, "a": 0}, {"op": "Emit", "i": 1, "j": 1, "a": 0}]
+            out.append({"id": "longctx-%d-%s" % (k, via), "S": 3, "steps": steps})
+    return out
+
+
 def random_programs(n, seed, S=5, length=14):
     """Seeded random derivation programs within the statement's shapes (affine use of Context values,
     UpdateContext only on a logger fresh from With()...Logger()), longer than the model's bound."""
@@ -181,6 +197,7 @@ def check(pid, tier, seed, replay=None):
             scripts += progs_of(sim, 4, "sim")
             scripts += random_programs(6000 if thorough else 1500, seed)
             scripts += hook_fork_programs(2000 if thorough else 400, seed)
+            scripts += long_context_programs()
             scripts += DIRECTED
         log("%s: %d programs %.0fs" % (pid, len(scripts), time.time() - t0))
         recs = run_player(player, sc, "tree", [json.dumps(s) for s in scripts], shards=NCPU)
